@@ -9,6 +9,24 @@
 #define VERIF_STL_H
 #include "base.h"
 
+#ifndef VEC_LOCAL_CAP
+#define VEC_LOCAL_CAP 512
+#endif
+/* vector of class objects: elements are copied by value (the copy constructors of the card classes copy
+ * the integers; an mpz_t of the abstract model is a plain value) */
+#define VECS_DECL(NAME, T)                                                       \
+  typedef struct { T *data; size_t size; size_t cap; } NAME;                     \
+  static inline size_t NAME##__size(NAME *v) { return v->size; }                 \
+  static inline void NAME##__clear(NAME *v) { v->size = 0; }                     \
+  static inline void NAME##__push_back(NAME *v, T *x)                            \
+  { __CPROVER_assert(v->size < v->cap, "model limit: vector capacity");          \
+    v->data[v->size] = *x; v->size = v->size + 1; }                              \
+  static inline T *NAME##__op_index(NAME *v, size_t i)                           \
+  { __CPROVER_assert(i < v->size, "vector index in range");                      \
+    return &v->data[i]; }                                                        \
+  static inline void NAME##__ctor_0(NAME *v)                                     \
+  { v->data = (T *)__verif_new_array(sizeof(T), VEC_LOCAL_CAP); v->size = 0; v->cap = VEC_LOCAL_CAP; }
+
 #define VEC_DECL(NAME, T)                                                        \
   typedef struct { T *data; size_t size; size_t cap; } NAME;                     \
   static inline size_t NAME##__size(NAME *v) { return v->size; }                 \
@@ -19,7 +37,10 @@
     v->data[v->size] = x; v->size = v->size + 1; }                               \
   static inline T *NAME##__op_index(NAME *v, size_t i)                           \
   { __CPROVER_assert(i < v->size, "vector index in range");                      \
-    return &v->data[i]; }
+    return &v->data[i]; }                                                        \
+  /* default construction of a local vector: empty, backing store of VEC_LOCAL_CAP elements */ \
+  static inline void NAME##__ctor_0(NAME *v)                                     \
+  { v->data = (T *)__verif_new_array(sizeof(T), VEC_LOCAL_CAP); v->size = 0; v->cap = VEC_LOCAL_CAP; }
 
 VEC_DECL(vec_ulong, size_t)
 /* std::string: concrete character buffer plus an abstract identity `absid`
